@@ -53,6 +53,9 @@ class Contract:
     # ghost lemma applications at function end: statements evaluated before checking ensures
     ghost_end: list = field(default_factory=list)
     timeout_ms: int = 10000
+    # bounded native domain: dict(alphabet=[...], max_len=3, max_len_thorough=4, ints=[...]) or a
+    # callable(tier) yielding input dicts
+    domain: Any = None
 
     def __post_init__(self):
         if not self.name:
